@@ -367,7 +367,7 @@ class Fn:
                 while x is not None:
                     path.append(x)
                     x = prev[x]
-                if self.raw.get("inlined"):
+                if True:
                     # the witness may be a path no execution takes (see dominates): decide on feasible paths
                     from .flow import feasible_reach_without
                     rets = [r for r in self.live_blocks() if self.term(r)["t"] == "return"]
